@@ -64,6 +64,20 @@ func (e *Engine) call(st *State, f *Frame, x ssa.Value, c *ssa.CallCommon, inDef
 				e.guard(st, e.b.False(), "nil pointer dereference (method call on nil interface "+c.Method.Name()+")", c.Pos())
 				return actDead, nil
 			}
+			if rt, ok := r.v.(ReflT); ok {
+				// reflect.Type produced by the reflect model
+				var res Val = Poison{"reflect.Type." + c.Method.Name()}
+				if c.Method.Name() == "Kind" {
+					if k, ok := reflectKind(rt.t); ok {
+						res = Scalar{e.b.BV(64, k)}
+					}
+				}
+				e.bindResult(f, x, c, res)
+				if inDefer {
+					return actAgain, nil
+				}
+				return actNext, nil
+			}
 			fn := e.lookupMethod(r.dyn, c.Method)
 			if fn == nil {
 				e.bindResult(f, x, c, Poison{"method not found: " + r.dyn.String() + "." + c.Method.Name()})
